@@ -1670,7 +1670,12 @@ pub fn find_reflection(source: &[u8], ranges: &[(usize, usize, &'static str)], h
 /// A window of a non-echoable region that *also* occurs in one of these (duplicated fields,
 /// retyped draft ids) proves nothing and is skipped by the scanner.
 pub fn echoable_material(d: &[u8]) -> Vec<Vec<u8>> {
-    let mut out = vec![hpkt::draft_version().as_bytes().to_vec()];
+    // the draft identification as a whole field (header, string, zero padding) in both framings
+    let draft = hpkt::draft_version().as_bytes();
+    let mut out = vec![refntp::encode_field(EF_V5_DRAFT_ID, draft, true, None), refntp::encode_field(EF_V5_DRAFT_ID, draft, false, None)];
+    for o in out.iter_mut() {
+        o.extend_from_slice(&[0; 8]);
+    }
     if let Some(p) = refntp::parse(d) {
         if p.header.version == 5 {
             out.push(d[24..32].to_vec());
@@ -1686,7 +1691,38 @@ pub fn echoable_material(d: &[u8]) -> Vec<Vec<u8>> {
     out
 }
 
+/// Marks the parts of a reply (or of its decrypted payload, `header = false`) whose content is
+/// accounted for by the field-by-field oracle: the echoed origin / client cookie, whole
+/// unique-identifier fields (header, value, padding), the draft identification and padding
+/// fields. A window lying entirely inside such parts cannot reveal non-echoable content.
+pub fn explained_mask(d: &[u8], fields: &[RefField], header: bool) -> Vec<bool> {
+    let mut m = vec![false; d.len()];
+    if header && d.len() >= 32 {
+        for b in &mut m[24..32] {
+            *b = true;
+        }
+    }
+    for (i, f) in fields.iter().enumerate() {
+        if matches!(f.type_id, EF_UNIQUE_ID | EF_V5_DRAFT_ID | EF_V5_PADDING) {
+            let end = fields.get(i + 1).map(|n| n.offset).unwrap_or_else(|| (f.offset + pad4(4 + f.value.len())).min(d.len()));
+            for b in &mut m[f.offset.min(d.len())..end.min(d.len())] {
+                *b = true;
+            }
+        } else {
+            // the 4-byte field header is framing
+            for b in &mut m[f.offset.min(d.len())..(f.offset + 4).min(d.len())] {
+                *b = true;
+            }
+        }
+    }
+    m
+}
+
 pub fn find_reflection_excluding(source: &[u8], ranges: &[(usize, usize, &'static str)], haystacks: &[&[u8]], exclude: &[Vec<u8>]) -> Option<(usize, &'static str, usize)> {
+    find_reflection_masked(source, ranges, haystacks, &[], exclude)
+}
+
+pub fn find_reflection_masked(source: &[u8], ranges: &[(usize, usize, &'static str)], haystacks: &[&[u8]], masks: &[Vec<bool>], exclude: &[Vec<u8>]) -> Option<(usize, &'static str, usize)> {
     let mut skip = std::collections::HashSet::new();
     for x in exclude {
         if x.len() >= 8 {
@@ -1699,6 +1735,11 @@ pub fn find_reflection_excluding(source: &[u8], ranges: &[(usize, usize, &'stati
     for (k, h) in haystacks.iter().enumerate() {
         if h.len() >= 8 {
             for i in 0..=h.len() - 8 {
+                if let Some(m) = masks.get(k) {
+                    if m.len() == h.len() && m[i..i + 8].iter().all(|b| *b) {
+                        continue;
+                    }
+                }
                 set.entry(u64::from_be_bytes(h[i..i + 8].try_into().unwrap())).or_insert(k);
             }
         }
@@ -1751,7 +1792,7 @@ impl E2e {
         let rt = tokio::runtime::Builder::new_multi_thread().worker_threads(1).enable_all().build().map_err(|e| e.to_string())?;
         let real = cfg.to_config()?;
         for attempt in 0..30u64 {
-            let port = 20000 + ((port_seed.wrapping_add(attempt.wrapping_mul(7919))) % 40000) as u16;
+            let port = 20000 + ((port_seed.wrapping_add(attempt.wrapping_mul(7919))) % 12000) as u16; // below the ephemeral range
             let listen = std::net::SocketAddr::new(IpAddr::V4(Ipv4Addr::LOCALHOST), port);
             match std::net::UdpSocket::bind(listen) {
                 Ok(s) => drop(s),
